@@ -66,6 +66,11 @@ type bOurs struct {
 	Allowed          []string `json:"allowed"`
 	NotAllowed       []string `json:"notAllowed"`
 	KeyIndex         uint32   `json:"keyIndex"` // harness only: key locator index (0xffff = wallet error)
+	// harness only: the order's original size (>= unfulfilled for an order partially filled by
+	// earlier batches; 0 = same as unfulfilled) and the offer of its sidecar ticket
+	Units          uint64 `json:"units"`
+	TicketPushAmt  int64  `json:"ticketPushAmt"`
+	TicketCapacity int64  `json:"ticketCapacity"`
 }
 
 type bAcct struct {
@@ -356,6 +361,9 @@ func (c *bCase) install(s *bSession) error {
 		kit.FixedRate = o.Rate
 		kit.UnitsUnfulfilled = order.SupplyUnit(o.UnitsUnfulfilled)
 		kit.Units = kit.UnitsUnfulfilled
+		if o.Units != 0 {
+			kit.Units = order.SupplyUnit(o.Units)
+		}
 		kit.Amt = kit.Units.ToSatoshis()
 		kit.MultiSigKeyLocator = keychain.KeyLocator{Family: 221, Index: o.KeyIndex}
 		kit.AcctKey = bHex33(o.AcctKey)
@@ -373,9 +381,14 @@ func (c *bCase) install(s *bSession) error {
 			continue
 		}
 		bid := &order.Bid{Kit: *kit, SelfChanBalance: btcutil.Amount(o.SelfChanBalance)}
+		offer := sidecar.Offer{
+			Capacity:            btcutil.Amount(o.TicketCapacity),
+			PushAmt:             btcutil.Amount(o.TicketPushAmt),
+			LeaseDurationBlocks: o.Duration,
+		}
 		switch o.Sidecar {
 		case 1:
-			bid.SidecarTicket = &sidecar.Ticket{}
+			bid.SidecarTicket = &sidecar.Ticket{Offer: offer}
 			if len(o.Nonce) > 0 && o.Nonce[len(o.Nonce)-1]&1 == 1 {
 				bid.SidecarTicket.Recipient = &sidecar.Recipient{}
 			}
@@ -384,7 +397,7 @@ func (c *bCase) install(s *bSession) error {
 			if err != nil {
 				return err
 			}
-			bid.SidecarTicket = &sidecar.Ticket{Recipient: &sidecar.Recipient{MultiSigPubKey: k}}
+			bid.SidecarTicket = &sidecar.Ticket{Offer: offer, Recipient: &sidecar.Recipient{MultiSigPubKey: k}}
 		}
 		s.store.orders[n] = bid
 	}
@@ -846,6 +859,39 @@ type bMatchRef struct {
 	mk    *bMarket
 }
 
+// ourKey / taproot / matchOutput: what an honest auctioneer funds for this match
+func (m bMatchRef) ourKey() string {
+	if !m.o.IsAsk && m.o.Sidecar == 2 {
+		return m.o.SidecarKey
+	}
+	return bKeyHex(int(m.o.KeyIndex & 0xff))
+}
+
+func (m bMatchRef) taproot() bool { return m.o.ChanType == 2 && m.t.ChanType == 3 }
+
+// matchOutput finds the honest channel output of a match in the transaction
+// (-1 if it is not there) and returns the bid's self channel balance it uses.
+func (c *bCase) matchOutput(m bMatchRef) (int, int64) {
+	if m.o == nil {
+		return -1, 0
+	}
+	self := m.o.SelfChanBalance
+	if m.o.IsAsk {
+		self = int64(m.t.SelfChanBalance)
+	}
+	sp := bFundScriptOf(m.taproot(), m.ourKey(), m.t.MultiSigKey)
+	if sp == nil {
+		return -1, 0
+	}
+	want := int64(m.t.UnitsFilled)*100_000 + self
+	for i, o := range c.Msg.TxOuts {
+		if o.Value == want && o.Script == *sp {
+			return i, self
+		}
+	}
+	return -1, 0
+}
+
 func (c *bCase) allMatches() []bMatchRef {
 	var res []bMatchRef
 	for i := range c.Msg.Markets {
@@ -1148,7 +1194,7 @@ func runBatch(r *Run) {
 
 	// compiled constants vs regenerated facts
 	r.Emit(r.Prop+" consts", fmt.Sprintf("pad=%d unit=%d p2wsh=%d input=%d scale=%d tapwit=%d wit=%d latest=%d",
-		order.VerifHeightHintPadding, int64(order.BaseSupplyUnit), input.P2WSHOutputSize, input.InputSize, blockchain.WitnessScaleFactor,
+		order.VerifC01HeightHintPadding, int64(order.BaseSupplyUnit), input.P2WSHOutputSize, input.InputSize, blockchain.WitnessScaleFactor,
 		poolscript.TaprootMultiSigWitnessSize, poolscript.MultiSigWitnessSize, uint32(order.LatestBatchVersion)))
 
 	var sess *bSession
